@@ -58,6 +58,11 @@ DIRECTED = [
     ("bad-date", "name from t where modified = '-'", 2), ("bad-date", "name from t where modified < '+1.5'", 2),
     ("bad-date", "name from t where modified = '--1'", 2), ("bad-date", "name from t where modified = 'ÀÉÎÀÉ'", 2),
     ("bad-date", "name from t where modified > 'étéété'", 2), ("bad-date", "name from t where modified < '日本語日本'", 2),
+    # digits of other scripts and signed numbers far beyond any range: text that is no date
+    ("bad-date", "name from t where modified = '٢٠٢٣-١٢-١١'", 2), ("bad-date", "name from t where modified > '२०२३-12-11 10:30'", 2),
+    ("bad-date", "year('٢٠٢٣-١٢-١١') from t", None), ("bad-date", "name from t where modified = '-٣'", 2),
+    ("bad-date", "name from t where modified < '-99999999999999999999'", 2), ("bad-date", "name from t where modified >= '+18446744073709551616'", 2),
+    ("bad-date", "day('-340282366920938463463374607431768211456') from t", None), ("bad-date", "name from t where modified = '+９'", 2),
     ("bad-boolean", "name from t where is_dir = maybe", 2), ("bad-boolean", "name from t where is_file != 2", 2),
     ("bad-boolean", "name from t where user_read = 'si'", 2),
     ("bad-function-argument", "rand(x) from t", 2), ("bad-function-argument", "rand(1, y) from t", 2),
